@@ -28,6 +28,16 @@ PACKS = {
            ("na", "!", ("seq", (("star", R("n")), S("b")))),
            ("sl", "_", ("seq", (R("cp"), S("b"))))),
 }
+PACKS["P4"] = (("n", "", S("a")),
+               ("at", "@", ("plus", R("n"))),                                   # repetition of a rule inside @
+               ("na", "!", ("seq", (R("at"), R("at")))),                         # ! calling @ twice: trivia between, not inside
+               ("cp", "$", ("seq", (R("na"), S("b")))),                          # $ calling ! : trivia re-enabled inside na only
+               ("sl", "_", ("star", ("grp", ("alt", (R("cp"), R("at")))))))      # silent repetition over modifier rules
+PACKS["P5"] = (("n", "", S("a")),
+               ("at", "@", ("seq", (("opt", R("n")), S("b"), ("not", R("n"))))),  # optional / predicate inside @
+               ("cp", "$", ("seq", (("and", R("n")), R("n"), ("star", S("b"))))),
+               ("na", "!", ("seq", (("opt", S("b")), R("n")))),
+               ("sl", "_", ("seq", (("not", S("b")), R("n"), ("opt", R("at"))))))
 T_TR = (S("a"), S("b"), R("n"), R("at"), R("cp"), R("na"), R("sl"))
 MODS = ("", "_", "@", "$", "!")
 
@@ -35,10 +45,12 @@ BOUNDS = {
     # (max body size, max number of inputs -> L per alphabet, trivia configs, packs, start modifiers)
     "quick": [
         (2, 160, ("none", "ws", "ws_loud", "cm2", "both", "ws_choice", "cm1"), ("P1", "P2", "P3"), MODS),
+        (2, 160, ("ws", "ws_loud", "both"), ("P4", "P5"), MODS),
         (3, 45, ("ws", "cm2", "both_loud"), ("P1", "P3"), ("", "@", "!")),
     ],
     "thorough": [
-        (3, 800, ("none", "ws", "ws_loud", "cm2", "both", "ws_choice", "cm1", "both_loud"), ("P1", "P2", "P3"), MODS),
+        (3, 400, ("none", "ws", "ws_loud", "cm2", "both", "ws_choice", "cm1", "both_loud"), ("P1", "P2", "P3"), MODS),
+        (3, 160, ("ws", "ws_loud", "both"), ("P4", "P5"), MODS),
         (4, 45, ("ws", "cm2"), ("P1", "P3"), ("", "@")),
     ],
 }
@@ -99,11 +111,11 @@ def run(tier: str) -> int:
     return gc.run_model_check(
         C04(), specs(tier), tier, "model_checking",
         bounds=[{"n": n, "L": {tv: length_for("ab" + families.TRIVIA_SIGMA[tv], mi) for tv in t}, "packs": list(p), "start_modifiers": list(m)} for n, mi, t, p, m in BOUNDS[tier]],
-        rule="start rule bodies: every expression with <= n nodes over {\"a\",\"b\",n,at,cp,na,sl} (helper packs P1-P3 give @ $ ! _ rules with sequences, repetitions and modifier nestings of depth 3), "
+        rule="start rule bodies: every expression with <= n nodes over {\"a\",\"b\",n,at,cp,na,sl} (helper packs P1-P5 give @ $ ! _ rules with sequences, repetitions, optionals, predicates and modifier nestings of depth 3-4), "
              "all unary operators and ~ |, x start-rule modifier x trivia configuration (none / WHITESPACE silent / non-silent / COMMENT two-element / both / choice body / one-char comment / both non-silent) "
              "x every input over {a,b}+trivia symbols up to length L, in all four modes against the reference model; start rules are batched 40 per grammar and failing cases are re-run on the isolated rule; "
              "a case is non-trivial when the reference run backtracked (incl. giving back trivia) or returned pairs",
-        assumptions=["helper packs are fixed (three), not enumerated", "tags are not modelled"],
+        assumptions=["helper packs are fixed (five), not enumerated", "tags are not modelled"],
     )
 
 
